@@ -374,7 +374,66 @@ def gen_c07(repo):
     return 'pysparkling/context.py (Context.parallelize), pysparkling/rdd.py (RDD.coalesce, RDD.zipWithUniqueId)', out
 
 
-GENERATORS = {'C07': gen_c07, 'C14': gen_c14, 'C17': gen_c17, 'C18': gen_c18}
+class _RandomCallToDraw(ast.NodeTransformer):
+    """`rng.random()` (the task's generator) becomes the parameter `draw`"""
+
+    def visit_Call(self, node):
+        self.generic_visit(node)
+        if isinstance(node.func, ast.Attribute) and node.func.attr == 'random' and not node.args:
+            return ast.Name(id='draw', ctx=ast.Load())
+        return node
+
+
+def gen_c16(repo):
+    tree = parse(repo, 'pysparkling/samplers.py')
+    call = find_def(find_class(tree, 'BernoulliSampler'), '__call__')
+    body = [_RandomCallToDraw().visit(s) for s in call.body]
+    t = Tr('Rat', fields=['expectation'], selfname='self')
+    env = {'@self': {'expectation': 'expectation'}, 'draw': 'draw'}
+
+    def nat_result(env2, value):
+        if not (isinstance(value, ast.IfExp) and isinstance(value.body, ast.Constant) and isinstance(value.orelse, ast.Constant)):
+            raise NotTranslatable('BernoulliSampler.__call__ is not `a if cond else b`')
+        return '(if %s then (%d : Nat) else (%d : Nat))' % (t.expr(value.test, env2), value.body.value, value.orelse.value)
+    out = 'def bernoulliCount (draw : Rat) (expectation : Rat) : Nat :=\n  %s\n\n' % t.block(body, env, 2, nat_result)
+    rdd = parse(repo, 'pysparkling/rdd.py')
+    comp = find_def(find_class(rdd, 'PartitionwiseSampledRDD'), 'compute')
+    seeds = [n for n in ast.walk(comp) if isinstance(n, ast.Call) and getattr(n.func, 'id', None) == 'TaskRandom']
+    if len(seeds) != 1 or len(seeds[0].args) != 1:
+        raise NotTranslatable('TaskRandom(seed expression) not found in PartitionwiseSampledRDD.compute')
+
+    class Sub(ast.NodeTransformer):
+        def visit_Attribute(self, node):
+            if isinstance(node.value, ast.Name) and node.value.id == 'self' and node.attr == 'seed':
+                return ast.Name(id='seed', ctx=ast.Load())
+            if isinstance(node.value, ast.Name) and node.value.id == 'split' and node.attr == 'index':
+                return ast.Name(id='index', ctx=ast.Load())
+            return node
+    t2 = Tr('Nat')
+    out += t2.function([ast.Return(value=Sub().visit(seeds[0].args[0]))], 'taskSeed', [('seed', 'Nat'), ('index', 'Nat')], 'Nat') + '\n'
+    rs = find_def(find_class(rdd, 'RDD'), 'randomSplit')
+    tests = [n for n in ast.walk(rs) if isinstance(n, ast.If) and isinstance(n.test, ast.Compare) and len(n.test.ops) == 2]
+    if len(tests) != 1:
+        raise NotTranslatable('randomSplit membership test')
+    t3 = Tr('Rat')
+    out += 'def inSplit (lb : Rat) (ub : Rat) (r : Rat) : Prop :=\n  %s\n\ninstance (lb ub r : Rat) : Decidable (inSplit lb ub r) := by unfold inSplit; infer_instance\n\n' % \
+        t3.expr(tests[0].test, {'lb': 'lb', 'ub': 'ub', 'r': 'r'})
+    app = [n for n in ast.walk(rs) if isinstance(n, ast.Call) and isinstance(n.func, ast.Attribute) and n.func.attr == 'append'
+           and isinstance(n.func.value, ast.Name) and n.func.value.id == 'boundaries']
+    if len(app) != 1:
+        raise NotTranslatable('randomSplit boundaries.append(...)')
+
+    class Sub2(ast.NodeTransformer):
+        def visit_Subscript(self, node):
+            if isinstance(node.value, ast.Name) and node.value.id == 'boundaries':
+                return ast.Name(id='last', ctx=ast.Load())
+            return node
+    out += t3.function([ast.Return(value=Sub2().visit(app[0].args[0]))], 'nextBoundary',
+                       [('last', 'Rat'), ('w', 'Rat'), ('sum_weights', 'Rat')], 'Rat') + '\n'
+    return 'pysparkling/samplers.py (BernoulliSampler.__call__), pysparkling/rdd.py (PartitionwiseSampledRDD.compute seed, randomSplit)', out
+
+
+GENERATORS = {'C16': gen_c16, 'C07': gen_c07, 'C14': gen_c14, 'C17': gen_c17, 'C18': gen_c18}
 
 
 def generate(prop, repo):
